@@ -16,15 +16,11 @@ namespace tapkee
 namespace tapkee_internal
 {
 
-template <class RandomAccessIterator>
-bool is_connected(RandomAccessIterator begin, RandomAccessIterator end, const Neighbors& neighbors)
+//! Checks whether every vertex of the graph given by adjacency lists
+//! can be reached from the vertex 0
+inline bool reaches_all_from_first(const Neighbors& adjacency)
 {
-    timed_context context("Checking if graph is connected");
-
-    // The number of data points
-    int N = end - begin;
-    // The number of neighbors used in KNN
-    IndexType k = neighbors[0].size();
+    const int N = adjacency.size();
 
     typedef std::stack<int> DFSStack;
     typedef std::vector<bool> VisitedVector;
@@ -48,9 +44,9 @@ bool is_connected(RandomAccessIterator begin, RandomAccessIterator end, const Ne
         if (nvisited == N)
             break;
 
-        const LocalNeighbors& current_neighbors = neighbors[current];
+        const LocalNeighbors& current_neighbors = adjacency[current];
 
-        for (IndexType j = 0; j < k; ++j)
+        for (size_t j = 0; j < current_neighbors.size(); ++j)
         {
             int neighbor = current_neighbors[j];
             if (!visited[neighbor])
@@ -59,6 +55,30 @@ bool is_connected(RandomAccessIterator begin, RandomAccessIterator end, const Ne
     }
 
     return (nvisited == N);
+}
+
+//! Checks whether every vector can reach every other vector following
+//! the edges from a vector to its neighbors (the neighborhood relation is not symmetric).
+//! It is the case iff some vector reaches all the others and is reached by all the others.
+template <class RandomAccessIterator>
+bool is_connected(RandomAccessIterator begin, RandomAccessIterator end, const Neighbors& neighbors)
+{
+    timed_context context("Checking if graph is connected");
+
+    // The number of data points
+    int N = end - begin;
+
+    if (!reaches_all_from_first(neighbors))
+        return false;
+
+    Neighbors reversed_neighbors(N);
+    for (int i = 0; i < N; ++i)
+    {
+        for (size_t j = 0; j < neighbors[i].size(); ++j)
+            reversed_neighbors[neighbors[i][j]].push_back(i);
+    }
+
+    return reaches_all_from_first(reversed_neighbors);
 }
 
 } /* namespace tapkee_internal */
